@@ -7,21 +7,33 @@ CONFIG = dict(
     namespaces=["MahfModel.Props.C03"],
     shrink_lists=["blk", "script", "pre"],
     level="proof",
-    rule=("configuration trees over {leaf, block, while, if, if/else, scope} with scripted leaves and conditions: "
+    rule=("configuration trees over {leaf, block, while, if, if/else, scope, hooked scope} with scripted leaves, conditions "
+          "and Scope::new_with hooks: "
           "(1) exhaustive - every tree shape with <= 4 nodes (quick) / <= 5 nodes (thorough; 6-node shapes sampled), "
           "leaf actions and the caller's prepared state drawn per tree, x every combination of the 8 behaviourally "
           "distinct truth sequences of length <= 3 for each condition (sampled above a cap) x the fault-free run and "
-          "every single fault point (leaf or condition x phase x occurrence) of its trace; (2) seeded random trees of "
-          "20-70 nodes with nested loop-in-scope-in-branch shapes, And/Or/Not conditions, random scripts, fault-free and "
-          "single faults. A case is non-trivial if the tree has a control-flow node (while/if/scope) and at least two "
-          "leaves or a fault; distinct = distinct canonical input."),
-    nontrivial=lambda inp: re.search(r"\((while|if|ifelse|scope) ", inp) is not None
+          "every single fault point (leaf or condition x phase x occurrence) of its trace; "
+          "(1a) every shape with <= 4 (5) nodes that contains a scope, its scopes built with "
+          "Scope::new_with and scripted state_init (inserts / sets / removes on the child, also of Iterations) and "
+          "states_merge (exports child state under the same or another key, Iterations included) hooks, x scripts x every "
+          "single fault point including the two hooks; (2) seeded random trees of "
+          "20-70 nodes with nested loop-in-scope-in-branch shapes (half of them with hooked scopes), And/Or/Not conditions "
+          "with 0..3 operands, random scripts, fault-free and single faults; (3) a sample of all of these again built through "
+          "the other public construction paths (do_many_, do_if_some_, Block::new, From<Vec>, the & | ! operators, "
+          "Configuration::from / into_inner) with a dyn-clone of the tree being run (site */alt), and run through "
+          "Configuration::optimize_with (site */opt; the final state is compared on Ok only, because Err drops it). "
+          "Leaf actions include init-phase writes to and requirements on Iterations; caller states have 1-3 scopes, "
+          "with Iterations at the top, in a lower scope only, or absent. A case is non-trivial if the tree has a "
+          "control-flow node (while/if/scope) and at least two leaves or a fault; distinct = distinct canonical input."),
+    nontrivial=lambda inp: re.search(r"\((while|if|ifelse|scope|scopew) ", inp) is not None
                            and (inp.count("(leaf ") >= 2 or "(fail " in inp),
     trusted_base=[
-        "leaves and conditions are the harness's scripted TraceLeaf / ScriptCond (the control-flow components, "
-        "ConfigurationBuilder, Configuration::run, And/Or/Not, State::with_inner_state and StateRegistry are the real code)",
+        "leaves, conditions and the two hook functions of Scope::new_with are the harness's scripted TraceLeaf / ScriptCond / "
+        "state_init::<SLOT> / states_merge::<SLOT> (the control-flow components, ConfigurationBuilder, Configuration::run / "
+        "optimize_with, And/Or/Not and their operators, State::with_inner_state and StateRegistry are the real code)",
         "HashMap / TypeId keyed registry represented as an association list per scope",
-        "eyre error values abstracted to (which leaf, which phase) / missing loop counter"],
+        "eyre error values abstracted to (which leaf or hook, which phase) / missing loop counter; the harness finds the "
+        "scripted error anywhere in the error's cause chain, so added context (wrap_err) is not a deviation"],
     assumptions=["SplitMix64-seeded generator", "every generated loop condition is false once its script is exhausted "
                  "(checked on both sides; otherwise the case is reported as illformed and not run)"],
 )
@@ -35,15 +47,27 @@ CONFIG.update(
                 "exactly the result and cuts the trace there; no fault reached => identical to the fault-free run); loop_passes (iff-characterisation: condition re-initialised once, n passes, n+1 "
                 "tests), loop_pass_count (n read off the script), loop_counter (+1 per completed pass; loops in scopes count on their "
                 "own counter: scope_keeps_counters, via a verified static analysis); branch_sem; scope_fresh_each_entry; "
-                "scope_discipline (depth kept on every outcome incl. errors); caller_state_kept; scope_locals_gone; shadow_restored; "
+                "scope_discipline (depth kept on every outcome incl. errors); caller_state_kept; caller_scopes_kept (scope by scope, "
+                "shadowed lower entries included); scope_locals_gone; shadow_restored; "
                 "outer_writes_persist (per key, any body: a state the body never inserts is exported as the body last left it), "
-                "untouched_state_unchanged, last_write_wins, shadow_holds_once_established, scope_without_locals_is_transparent. The model is tied to /repo by building real "
+                "untouched_state_unchanged, last_write_wins, shadow_holds_once_established, scope_without_locals_is_transparent; "
+                "run_loop_counts_from_zero (a run of a loop ends with Iterations = number of completed passes whatever counter the "
+                "caller held). Scope::new_with is modelled (Comp.scopeW): hooked_scope_lifecycle (state_init first on the fresh child; "
+                "its failure => body not initialised, scope closed, caller untouched; body failure => merge not called; merge called "
+                "once after the registry is restored, with the child's own final map; its failure returned), merge_exports (what the "
+                "caller finds under every key after the merge), hooked_scope_locals_gone and hooked_shadow_restored (unless exported); "
+                "every all-trees theorem above (structured program, lifecycle, first_error_stops, fault_is_returned, scope_discipline, "
+                "loop_*) covers trees with hooked scopes, the side-condition theorems cover them when nested merge hooks export nothing. "
+                "The model is tied to /repo by building real "
                 "component trees with the real builder/constructors, reading the built tree back through the code's own Serialize, "
-                "running Configuration::run and diffing trace, result, scope depth and registry dump against the compiled model (K) "
+                "running Configuration::run (or optimize_with) and diffing trace, result, scope depth and registry dump against the compiled model (K) "
                 "and against the structured-program semantics (O)."),
-    level_note=("Trusted: Lean kernel; harness + driver printing; association-list model of the registry. Leaves are scripted "
-                "(TraceLeaf/ScriptCond of the harness): the theorems are about the control-flow components, not about what shipped "
-                "leaves do; eyre errors are abstracted to (leaf, phase) / missing counter. And/Or/Not are modelled as written "
+    level_note=("Trusted: Lean kernel; harness + driver printing; association-list model of the registry. Leaves and scope hooks are scripted "
+                "(TraceLeaf/ScriptCond/hook functions of the harness): the theorems are about the control-flow components, not about what shipped "
+                "leaves do; a merge hook is a list of 'copy child state a to caller state b' (arbitrary merge functions are not modelled); "
+                "eyre errors are abstracted to (leaf or hook, phase) / missing counter. Panics (as opposed to Err) inside a scope are outside "
+                "the property and the model: with_inner_state has no unwind guard, a caught panic leaves the caller's State empty (observation, by reading). "
+                "Iterations is a Nat in the model (u32 overflow not modelled). And/Or/Not are modelled as written "
                 "(every child evaluated, no short-circuit), so a change of their evaluation strategy shows up here as an order "
                 "deviation. Loops are bounded by a pass bound in the model; every theorem holds for every bound. "
                 "run_is_structured_program is a change of presentation (the program is compiled from the same tree), not an independent "
